@@ -82,7 +82,12 @@ def windows_by_value(chk, repo, cfg, label, clause_b, clause_c, clause_i, fl0):
         shift = sh[0].result
         fix = nf.app('fix', shift)
         s_out = em[0].bound.get('shape')
-        comp = lambda v, k: v.items[k] if isinstance(v, Tup) else nf.index(v, C(k))
+        def comp(v, k):
+            if isinstance(v, Tup):
+                return v.items[k]
+            from ..npmodel import _shape_vector_elem
+            e_ = _shape_vector_elem(v, k)         # (x.shape*oversample)[k] is x.shape[k]*oversample
+            return e_ if e_ != v else nf.index(v, C(k))
         if cfg['prop_shape'] is not NONE:
             ps = cfg['prop_shape']
             p_out = Tup([ps.items[0] * osf, ps.items[1] * osf], 'vec')
